@@ -30,7 +30,7 @@ CPP_FULL_RUNTIME_NAMES = frozenset([
     "do_decode_advance", "do_decode_align", "do_decode_greedy", "do_decode_in_place", "do_decode_resize", "encode_int", "decode_int",
     "print_byte", "indent_t", "is_class_or_union", "decoder_greedy", "heap_value", "optional_detail", "to_literal"
 ])
-CPP_FULL_MEMBER_NAMES = frozenset(["array", "optional", "encode", "decode", "print", "get_byte_size"])
+CPP_FULL_MEMBER_NAMES = frozenset(["array", "optional", "encode", "get_byte_size"])
 """ names of prophy::detail and of the generated classes that the full codec's sources use unqualified """
 
 
